@@ -72,6 +72,18 @@ def writes(L, p):
         elif "Arguments" in e.name and (e.name.endswith("::new") or e.name.endswith("from_str")):
             out.append((tmpl(e.args[0]), tuple(pend), e))
             pend = []
+        elif e.name.endswith("::write_str") and "core::fmt" in e.name:
+            # a literal written directly: the same emission as write!(f, "<literal>")
+            a = e.args[1]
+            while a[0] in ("ref", "deref"):
+                a = a[1]
+            out.append((a[1] if a[0] == "str" else "{}", () if a[0] == "str" else (L.lift(a),), e))
+        elif e.name.endswith("::write_char") and "core::fmt" in e.name:
+            a = e.args[1]
+            if a[0] == "int":
+                out.append((chr(a[1]), (), e))
+            else:
+                out.append(("{}", (L.lift(a),), e))
     return out
 
 
